@@ -2,17 +2,18 @@
 # confirm a second-round seeded change in the agent's worktree, store it under /verif/seeded, run the property's check on it
 # usage: seed2.sh C08 c [tier]
 id=$1; v=$2; tier=${3:-quick}
-export SEEDBASE=/tmp/seed2
+export SEEDBASE=${SEEDBASE:-/tmp/seed3}
 conf=$(/verif/tools/seed_confirm.sh $id $v)
 echo "$conf"
 case "$conf" in *"before=[ok"*"after=[FAIL"*"suite=[ok"*) ;; *) echo "$id $v: NOT CONFIRMED"; exit 1;; esac
 d=/verif/seeded/$id-$v; mkdir -p $d
-cp /tmp/seed2/${id}_out/patch_$v.diff $d/patch.diff
-cp /tmp/seed2/${id}_out/demo_${v}_test.go $d/demo_test.go.txt
+cp $SEEDBASE/${id}_out/patch_$v.diff $d/patch.diff
+cp $SEEDBASE/${id}_out/demo_${v}_test.go $d/demo_test.go.txt
 python3 - "$id" "$v" "$conf" <<'P'
 import json,sys
 id,v,conf=sys.argv[1:4]
-m=json.load(open(f'/tmp/seed2/{id}_out/meta_{v}.json'))
+import os
+m=json.load(open(os.environ['SEEDBASE']+f'/{id}_out/meta_{v}.json'))
 m['confirmed']=conf
 m['ran']=f'tools/seed_confirm.sh (demo passes before, fails after, suite passes with the patch); tools/seed_run.sh {id} {v}'
 json.dump(m,open(f'/verif/seeded/{id}-{v}/meta.json','w'),indent=1)
